@@ -7,12 +7,12 @@ package rules
 // services/ruler/golang is verified against them.
 
 //@ iface Service.OnSign(self, ctx, metadata, req)
-//@ requires req != nil
+//@ requires req != nil && cap(req.Domain) >= 4
 //@ ensures [verdicts] result == APPROVED || result == DENIED || result == FAILED
 //@ ensures [noslashable] result == APPROVED ==> prefix4(req.Domain) != ATT && prefix4(req.Domain) != PROP
 
 //@ iface Service.OnSignBeaconAttestation(self, ctx, metadata, req)
-//@ requires metadata != nil && req != nil && req.Source != nil && req.Target != nil
+//@ requires metadata != nil && req != nil && req.Source != nil && req.Target != nil && cap(req.Domain) >= 4
 //@ modifies db
 //@ ensures [verdicts] result == APPROVED || result == DENIED || result == FAILED
 //@ ensures [sound] result == APPROVED ==> old(wmAttOk(bytes(metadata.PubKey))) && attOK(old(wmAttS(bytes(metadata.PubKey))), old(wmAttT(bytes(metadata.PubKey))), req.Source.Epoch, req.Target.Epoch, prefix4(req.Domain))
@@ -22,7 +22,7 @@ package rules
 //@ ensures [compl] store_ok && old(wmAttOk(bytes(metadata.PubKey))) && attOK(old(wmAttS(bytes(metadata.PubKey))), old(wmAttT(bytes(metadata.PubKey))), req.Source.Epoch, req.Target.Epoch, prefix4(req.Domain)) ==> result == APPROVED
 
 //@ iface Service.OnSignBeaconProposal(self, ctx, metadata, req)
-//@ requires metadata != nil && req != nil
+//@ requires metadata != nil && req != nil && cap(req.Domain) >= 4
 //@ modifies db
 //@ ensures [verdicts] result == APPROVED || result == DENIED || result == FAILED
 //@ ensures [sound] result == APPROVED ==> old(wmPropOk(bytes(metadata.PubKey))) && propOK(old(wmPropL(bytes(metadata.PubKey))), req.Slot, prefix4(req.Domain))
@@ -33,6 +33,7 @@ package rules
 //@ ensures [wrongdomain] prefix4(req.Domain) != PROP ==> result == DENIED
 
 //@ iface Service.OnSignBeaconAttestations(self, ctx, metadata, req)
+//@ requires [domaincap] forall i int :: 0 <= i && i < len(req) && req[i] != nil ==> cap(req[i].Domain) >= 4
 //@ requires [distinct] forall i int, j int :: 0 <= i && i < j && j < len(metadata) && metadata[i] != nil && metadata[j] != nil ==> bytes(metadata[i].PubKey) != bytes(metadata[j].PubKey)
 //@ modifies db
 //@ ensures [len] len(result) == len(req)
